@@ -9,6 +9,9 @@ Record good_join (sn : pnames) (common u : list string) : Prop := mkgj {
   gj_merge : ~ In (n_merge sn) u;
   gj_right : forall c, In c common -> ~ In (n_right sn c) u;
   gj_right_merge : forall c, In c common -> n_right sn c <> n_merge sn;
+  gj_nullkey : ~ In (n_nullkey sn) u;
+  gj_right_nullkey : forall c, In c common -> n_right sn c <> n_nullkey sn;
+  gj_merge_nullkey : n_merge sn <> n_nullkey sn;
   gj_inj : forall a b, In a common -> In b common -> n_right sn a = n_right sn b -> a = b }.
 
 Lemma nodupb_NoDup l : nodupb l = true <-> NoDup l.
@@ -129,7 +132,8 @@ Section Join.
     - exists res. split; [reflexivity|]. split; [symmetry; apply filter_all; reflexivity|reflexivity].
     - inversion N as [|x l Hx N']; subst.
       destruct (fget_In_Some res c (Hc c (or_introl eq_refl))) as [a Ea]. destruct (fget_In_Some res (nr c) (Hr c (or_introl eq_refl))) as [b Eb].
-      fold nr. rewrite Ea, Eb. simpl.
+      assert (Mp : mem (nr c) (fcols res) = true) by (apply mem_In, Hr; left; reflexivity).
+      fold nr. rewrite Mp, Ea, Eb. simpl.
       set (res2 := fdel (fset res c (p_fillna P a b)) (nr c)).
       assert (C2 : fcols res2 = remove_elem (nr c) (fcols res)).
       { unfold res2. rewrite fcols_fdel, fcols_fset, add_end_present by (apply Hc; left; reflexivity). reflexivity. }
@@ -159,13 +163,61 @@ Section Join.
              destruct (eq_dec (nr x) c) as [e|_]; [exfalso; apply (Hsep x c); [right; exact Mt|left; reflexivity|exact e]|]. reflexivity.
   Qed.
 
+  (* columns whose suffixed copy is absent are skipped, and the test is not disturbed by the rounds before it *)
+  Lemma coalesce_skip cs : forall res,
+    NoDup cs -> (forall a b, In a cs -> In b cs -> nr a = nr b -> a = b) -> (forall a b, In a cs -> In b cs -> nr a <> b) ->
+    coalesce_common P sn cs res = coalesce_common P sn (filter (fun c => mem (nr c) (fcols res)) cs) res.
+  Proof.
+    induction cs as [|c t IH]; intros res N Hinj Hsep; [reflexivity|]. inversion N as [|x l Hx N']; subst.
+    assert (Hinj' : forall a b, In a t -> In b t -> nr a = nr b -> a = b) by (intros a b Ha Hb; apply Hinj; right; assumption).
+    assert (Hsep' : forall a b, In a t -> In b t -> nr a <> b) by (intros a b Ha Hb; apply Hsep; right; assumption).
+    cbn [coalesce_common filter]. fold nr. destruct (mem (nr c) (fcols res)) eqn:Mp; [|apply IH; assumption].
+    cbn [coalesce_common]. fold nr. rewrite Mp.
+    destruct (fget res c) as [a|] eqn:Ea; [|reflexivity]. destruct (fget res (nr c)) as [b|] eqn:Eb; [|reflexivity]. simpl.
+    rewrite (IH _ N' Hinj' Hsep'). f_equal. apply filter_ext_in. intros c' Hc'.
+    rewrite fcols_fdel, fcols_fset, add_end_present by (apply (fget_Some_In res c a Ea)).
+    destruct (mem (nr c') (fcols res)) eqn:M'.
+    - apply mem_In, In_remove_elem. split; [apply mem_In, M'|]. intros E. apply Hx. rewrite <- (Hinj c' c (or_intror Hc') (or_introl eq_refl) E). exact Hc'.
+    - apply mem_false. intros H. apply In_remove_elem in H. apply mem_false in M'. tauto.
+  Qed.
+
+  Lemma freads_app (F : frame A) a b :
+    freads F (a ++ b) = match freads F a, freads F b with Some x, Some y => Some (x ++ y) | _, _ => None end.
+  Proof.
+    unfold freads. induction a as [|c t IH]; simpl; [destruct (all_some (map (fget F) b)); reflexivity|].
+    destruct (fget F c); [|reflexivity]. rewrite map_app in *. rewrite IH.
+    destruct (all_some (map (fget F) t)); [|reflexivity]. destruct (all_some (map (fget F) b)); reflexivity.
+  Qed.
+
+  Lemma freads_own (T : frame A) : NoDup (fcols T) -> freads T (fcols T) = Some (map snd T).
+  Proof.
+    unfold freads, fcols. induction T as [|[k a] t IH]; simpl; intros N; [reflexivity|]. inversion N as [|x l Hx N']; subst.
+    unfold fget at 1. simpl. destruct (eq_dec k k); [|congruence].
+    assert (E : map (fget ((k, a) :: t)) (map fst t) = map (fget t) (map fst t)).
+    { apply map_ext_in. intros c Hc. unfold fget. simpl. destruct (eq_dec c k) as [->|n]; [contradiction|reflexivity]. }
+    rewrite E, (IH N'). reflexivity.
+  Qed.
+
+  Lemma fold_fdel_app_r ns : forall (X R : frame A), (forall n, In n ns -> ~ In n (fcols R)) -> fold_left fdel ns (X ++ R) = fold_left fdel ns X ++ R.
+  Proof.
+    induction ns as [|n t IH]; intros X R H; simpl; [reflexivity|].
+    rewrite fdel_app, (fdel_absent R n) by (apply H; left; reflexivity). apply IH. intros m Hm. apply H. right. exact Hm.
+  Qed.
+
+  Lemma NoDup_insert_list {X} (l ns l' : list X) : NoDup (l ++ l') -> NoDup ns -> (forall n, In n ns -> ~ In n (l ++ l')) -> NoDup (l ++ ns ++ l').
+  Proof.
+    induction ns as [|n t IH]; simpl; intros N Nn D; [exact N|]. inversion Nn as [|x y Hx Nt]; subst.
+    apply NoDup_insert; [apply IH; [exact N|exact Nt|intros m Hm; apply D; right; exact Hm]|].
+    rewrite !in_app_iff. intros [H|[H|H]]; [apply (D n (or_introl eq_refl)); rewrite in_app_iff; tauto|contradiction|apply (D n (or_introl eq_refl)); rewrite in_app_iff; tauto].
+  Qed.
+
   Definition ren (lfc : list string) (n : string) : string := if mem n lfc then nr n else n.
 
-  Theorem join_no_capture how on lf rg :
+  Theorem join_no_capture how on nullkeys lf rg :
     NoDup (fcols lf) -> NoDup (fcols rg) -> good_join sn (filter (fun c => mem c (fcols rg)) (fcols lf)) (fcols lf ++ fcols rg ++ on) ->
-    pexec_join P sn how on lf rg = plain_join P how on lf rg.
+    pexec_join P sn how on nullkeys lf rg = plain_join P how on nullkeys lf rg.
   Proof.
-    intros Nl Nr [Gm Gr Grm Ginj].
+    intros Nl Nr [Gm Gr Grm Gnk Grnk Gmnk Ginj].
     set (u := fcols lf ++ fcols rg ++ on) in *.
     assert (Ulf : forall c, In c (fcols lf) -> In c u) by (intros c H; apply in_or_app; left; exact H).
     assert (Urg : forall c, In c (fcols rg) -> In c u) by (intros c H; apply in_or_app; right; apply in_or_app; left; exact H).
@@ -200,7 +252,7 @@ Section Join.
     assert (Core : forall ka kb, (forall c, In c on -> In c lfc) ->
                let L0 := map (fun na : string * A => (fst na, p_merge_left P how ka kb (snd na))) lf in
                let R0 := map (fun nb : string * A => (ren lfc (fst nb), p_merge_right P how ka kb (snd nb))) (filter (fun nb => negb (mem (fst nb) on)) rg) in
-               coalesce_common P sn (filter (fun c => negb (mem c on)) (filter (fun c => mem c (fcols rg)) lfc)) (L0 ++ R0)
+               coalesce_common P sn (filter (fun c => mem c (fcols rg)) lfc) (L0 ++ R0)
                = Some (map (fun na => (fst na,
                                        match (if negb (mem (fst na) on) then fget rg (fst na) else None) with
                                        | Some b => p_fillna P (p_merge_left P how ka kb (snd na)) (p_merge_right P how ka kb b)
@@ -212,6 +264,20 @@ Section Join.
       assert (Hcs : forall c, In c cs <-> In c lfc /\ In c (fcols rg) /\ ~ In c on).
       { intros c. unfold cs. rewrite !filter_In, negb_true_iff, mem_In, mem_false. tauto. }
       assert (CLR : fcols (L0 ++ R0) = lfc ++ fcols R0) by (unfold fcols; rewrite map_app; fold (fcols L0); fold (fcols R0); rewrite CL; reflexivity).
+      assert (Skip : coalesce_common P sn (filter (fun c => mem c (fcols rg)) lfc) (L0 ++ R0) = coalesce_common P sn cs (L0 ++ R0)).
+      { rewrite coalesce_skip.
+        - f_equal. unfold cs. apply filter_ext_in. intros c Hc. apply filter_In in Hc. destruct Hc as [Hc1 Hc2]. apply mem_In in Hc2.
+          rewrite CLR, CR. destruct (mem c on) eqn:Mo; simpl.
+          + apply mem_false. rewrite in_app_iff. intros [H|H]; [apply (Gr c (Com c Hc1 Hc2)), Ulf, H|].
+            apply in_map_iff in H. destruct H as [k [E Hk]]. apply filter_In in Hk. destruct Hk as [Hk1 Hk2].
+            assert (Ec : ren lfc c = nr c) by (unfold ren; apply mem_In in Hc1; rewrite Hc1; reflexivity).
+            assert (k = c) by (apply RenInj; [exact Hk1|exact Hc2|rewrite Ec; exact E]). subst k. rewrite Mo in Hk2. discriminate.
+          + apply mem_In, in_or_app. right. apply in_map_iff. exists c. split; [unfold ren; apply mem_In in Hc1; rewrite Hc1; reflexivity|].
+            apply filter_In. split; [exact Hc2|rewrite Mo; reflexivity].
+        - apply NoDup_filter, Nl.
+        - intros a b Ha Hb. apply Ginj; assumption.
+        - intros a b Ha Hb E. apply (Gr a Ha). fold nr. rewrite E. apply filter_In in Hb. apply Ulf. tauto. }
+      rewrite Skip.
       destruct (coalesce_spec cs (L0 ++ R0)) as [res' [E1 [E2 E3]]].
       - unfold cs. apply NoDup_filter, NoDup_filter, Nl.
       - intros c Hc. apply Hcs in Hc. rewrite CLR. apply in_or_app. left. tauto.
@@ -288,62 +354,131 @@ Section Join.
                assert (Mo : mem x on = false) by (apply mem_false; intros H; apply Nxl, Hon, H). rewrite Mo. simpl.
                rewrite (fget_map_keep (fun nb => p_merge_right P how ka kb (snd nb))), (fget_filter (fun c => negb (mem c lfc)) rg), Hxl. reflexivity.
             -- intros k Hk. rewrite (fcols_filter (fun c => negb (mem c on)) rg) in Hk. apply filter_In in Hk. apply RenInj; [tauto|exact Hxr]. }
-    unfold pexec_join, plain_join. fold one.
-    destruct on as [|o1 os].
-    - (* no key: the merge column is written into both inputs and deleted from the result *)
-      cbn iota beta.
-      assert (Ml : ~ In (n_merge sn) (fcols lf)) by (intros H; apply Gm, Ulf, H).
-      assert (Mr : ~ In (n_merge sn) (fcols rg)) by (intros H; apply Gm, Urg, H).
-      rewrite (fset_absent lf _ one Ml), (fset_absent rg _ one Mr).
-      assert (Ka : forall F : frame A, ~ In (n_merge sn) (fcols F) -> freads (F ++ [(n_merge sn, one)]) [n_merge sn] = Some [one]).
-      { intros F NF. unfold freads. simpl. rewrite fget_app_r by exact NF. unfold fget. simpl. destruct (eq_dec (n_merge sn) (n_merge sn)); [reflexivity|congruence]. }
-      rewrite (Ka lf Ml), (Ka rg Mr). simpl.
-      destruct (Shape [one] [one]) as [ND [CL CR]].
-      pose proof (Core [one] [one] (fun c (H : In c []) => match H with end)) as CO.
-      cbv zeta in ND, CL, CR, CO.
-      set (L0 := map (fun na : string * A => (fst na, p_merge_left P how [one] [one] (snd na))) lf) in *.
-      set (R0 := map (fun nb : string * A => (ren lfc (fst nb), p_merge_right P how [one] [one] (snd nb))) (filter (fun nb => negb (mem (fst nb) [])) rg)) in *.
-      assert (EM : pd_merge P (n_right sn) how [n_merge sn] [one] [one] (lf ++ [(n_merge sn, one)]) (rg ++ [(n_merge sn, one)])
-                   = Some ((L0 ++ [(n_merge sn, p_merge_left P how [one] [one] one)]) ++ R0)).
-      { unfold pd_merge.
-        assert (Er : filter (fun nb : string * A => negb (mem (fst nb) [n_merge sn])) (rg ++ [(n_merge sn, one)]) = filter (fun nb => negb (mem (fst nb) [])) rg).
-        { rewrite filter_app. simpl. destruct (eq_dec (n_merge sn) (n_merge sn)); [|congruence]. simpl. rewrite app_nil_r.
-          apply filter_ext_in. intros [k a] Hk. simpl. destruct (eq_dec k (n_merge sn)) as [->|n]; [|reflexivity].
-          exfalso. apply Mr. unfold fcols. apply in_map_iff. exists (n_merge sn, a). split; [reflexivity|exact Hk]. }
-        rewrite Er.
-        assert (Eo : map (fun na : string * A => (fst na, p_merge_left P how [one] [one] (snd na))) (lf ++ [(n_merge sn, one)])
-                     ++ map (fun nb : string * A => ((if mem (fst nb) (fcols (lf ++ [(n_merge sn, one)])) then n_right sn (fst nb) else fst nb), p_merge_right P how [one] [one] (snd nb)))
-                            (filter (fun nb => negb (mem (fst nb) [])) rg)
-                     = (L0 ++ [(n_merge sn, p_merge_left P how [one] [one] one)]) ++ R0).
-        { rewrite map_app. simpl. f_equal. unfold R0. apply map_ext_in. intros [k a] Hk. simpl. f_equal.
-          apply filter_In in Hk. destruct Hk as [Hk _].
-          unfold fcols. rewrite map_app, mem_app. simpl. unfold ren, nr, lfc, fcols.
-          destruct (eq_dec k (n_merge sn)) as [->|n]; [|rewrite orb_false_r; reflexivity].
-          exfalso. apply Mr. unfold fcols. apply in_map_iff. exists (n_merge sn, a). split; [reflexivity|exact Hk]. }
-        rewrite Eo.
-        assert (NDo : nodupb (fcols ((L0 ++ [(n_merge sn, p_merge_left P how [one] [one] one)]) ++ R0)) = true).
-        { apply nodupb_NoDup. unfold fcols. rewrite !map_app. simpl. rewrite <- app_assoc. simpl. fold (fcols L0). fold (fcols R0).
-          apply NoDup_insert.
-          - unfold fcols in ND. rewrite map_app in ND. exact ND.
-          - rewrite in_app_iff. rewrite CL, CR. intros [H|H]; [exact (Ml H)|].
-            apply in_map_iff in H. destruct H as [n [E Hn]]. apply filter_In in Hn. destruct Hn as [Hn _]. unfold ren in E.
-            destruct (mem n lfc) eqn:Mn; [exact (Grm n (Com n (proj1 (mem_In n lfc) Mn) Hn) E)|]. subst n. exact (Mr Hn). }
-        rewrite NDo. reflexivity. }
-      rewrite EM. simpl.
-      assert (ED : fdel ((L0 ++ [(n_merge sn, p_merge_left P how [one] [one] one)]) ++ R0) (n_merge sn) = L0 ++ R0).
-      { rewrite !fdel_app, fdel_single, app_nil_r. f_equal; apply fdel_absent.
-        - rewrite CL. exact Ml.
-        - rewrite CR. intros H. apply in_map_iff in H. destruct H as [n [E Hn]]. apply filter_In in Hn. destruct Hn as [Hn _]. unfold ren in E.
-          destruct (mem n lfc) eqn:Mn; [exact (Grm n (Com n (proj1 (mem_In n lfc) Mn) Hn) E)|]. subst n. exact (Mr Hn). }
-      rewrite ED. exact CO.
-    - (* keys: no scratch key column *)
-      cbn iota beta.
-      destruct (freads lf (o1 :: os)) as [ka|] eqn:Ka; simpl; [|reflexivity].
-      destruct (freads rg (o1 :: os)) as [kb|] eqn:Kb; simpl; [|reflexivity].
-      assert (Hon : forall c, In c (o1 :: os) -> In c lfc) by (apply (freads_In lf (o1 :: os) ka Ka)).
-      destruct (Shape ka kb) as [ND _]. pose proof (Core ka kb Hon) as CO. cbv zeta in ND, CO.
+    (* scratch key columns: appended to both inputs and to the keys, deleted from the result *)
+    assert (Scratch : forall (SK : list (string * (A * A))) ka kb,
+               NoDup (map fst SK) ->
+               (forall n, In n (map fst SK) -> ~ In n u /\ forall c, In c (filter (fun c => mem c (fcols rg)) lfc) -> nr c <> n) ->
+               obind (pd_merge P (n_right sn) how (on ++ map fst SK) ka kb
+                               (lf ++ map (fun x : string * (A * A) => (fst x, fst (snd x))) SK)
+                               (rg ++ map (fun x : string * (A * A) => (fst x, snd (snd x))) SK))
+                     (fun res => coalesce_common P sn (filter (fun c => mem c (fcols rg)) lfc) (fold_left fdel (map fst SK) res))
+               = coalesce_common P sn (filter (fun c => mem c (fcols rg)) lfc)
+                   (map (fun na : string * A => (fst na, p_merge_left P how ka kb (snd na))) lf
+                    ++ map (fun nb : string * A => (ren lfc (fst nb), p_merge_right P how ka kb (snd nb))) (filter (fun nb => negb (mem (fst nb) on)) rg))).
+    { intros SK ka kb NS HS. destruct (Shape ka kb) as [ND [CL CR]]. cbv zeta in ND, CL, CR.
+      set (L0 := map (fun na : string * A => (fst na, p_merge_left P how ka kb (snd na))) lf) in *.
+      set (R0 := map (fun nb : string * A => (ren lfc (fst nb), p_merge_right P how ka kb (snd nb))) (filter (fun nb => negb (mem (fst nb) on)) rg)) in *.
+      set (names := map fst SK) in *.
+      set (SKL := map (fun x : string * (A * A) => (fst x, p_merge_left P how ka kb (fst (snd x)))) SK).
+      assert (NSrg : forall n, In n names -> ~ In n (fcols rg)) by (intros n Hn H; apply (proj1 (HS n Hn)), Urg, H).
+      assert (NSlf : forall n, In n names -> ~ In n lfc) by (intros n Hn H; apply (proj1 (HS n Hn)), Ulf, H).
+      assert (NSR0 : forall n, In n names -> ~ In n (fcols R0)).
+      { intros n Hn H. rewrite CR in H. apply in_map_iff in H. destruct H as [k [E Hk]]. apply filter_In in Hk. destruct Hk as [Hk _]. unfold ren in E.
+        destruct (mem k lfc) eqn:Mk; [exact (proj2 (HS n Hn) k (Com k (proj1 (mem_In k lfc) Mk) Hk) E)|]. subst k. exact (NSrg n Hn Hk). }
+      assert (CS : fcols SKL = names) by (unfold SKL, names, fcols; rewrite map_map; reflexivity).
       unfold pd_merge.
-      match goal with |- context [nodupb ?l] => replace (nodupb l) with true by (symmetry; apply nodupb_NoDup; exact ND) end.
-      simpl. exact CO.
+      assert (Er : filter (fun nb : string * A => negb (mem (fst nb) (on ++ names))) (rg ++ map (fun x : string * (A * A) => (fst x, snd (snd x))) SK)
+                   = filter (fun nb => negb (mem (fst nb) on)) rg).
+      { rewrite filter_app.
+        assert (E2 : filter (fun nb : string * A => negb (mem (fst nb) (on ++ names))) (map (fun x : string * (A * A) => (fst x, snd (snd x))) SK) = []).
+        { clear -names. unfold names. induction SK as [|x t IHt]; simpl; [reflexivity|].
+          assert (M : mem (fst x) (on ++ fst x :: map fst t) = true) by (apply mem_In, in_or_app; right; left; reflexivity).
+          rewrite M. simpl.
+          assert (E : forall nb : string * A, In nb (map (fun x0 : string * (A * A) => (fst x0, snd (snd x0))) t) -> negb (mem (fst nb) (on ++ fst x :: map fst t)) = false).
+          { intros nb Hnb. apply in_map_iff in Hnb. destruct Hnb as [y [<- Hy]]. simpl. apply negb_false_iff, mem_In, in_or_app. right. right. apply in_map, Hy. }
+          clear IHt. induction (map (fun x0 : string * (A * A) => (fst x0, snd (snd x0))) t) as [|z l IHl]; simpl; [reflexivity|].
+          rewrite (E z (or_introl eq_refl)). apply IHl. intros nb Hnb. apply E. right. exact Hnb. }
+        rewrite E2, app_nil_r. apply filter_ext_in. intros [k a] Hk. simpl. rewrite mem_app.
+        assert (M : mem k names = false). { apply mem_false. intros H. apply (NSrg k H). unfold fcols. apply in_map_iff. exists (k, a). split; [reflexivity|exact Hk]. }
+        rewrite M, orb_false_r. reflexivity. }
+      rewrite Er.
+      assert (Eo : map (fun na : string * A => (fst na, p_merge_left P how ka kb (snd na))) (lf ++ map (fun x : string * (A * A) => (fst x, fst (snd x))) SK)
+                   ++ map (fun nb : string * A => ((if mem (fst nb) (fcols (lf ++ map (fun x : string * (A * A) => (fst x, fst (snd x))) SK)) then n_right sn (fst nb) else fst nb),
+                                                  p_merge_right P how ka kb (snd nb)))
+                          (filter (fun nb => negb (mem (fst nb) on)) rg)
+                   = (L0 ++ SKL) ++ R0).
+      { rewrite map_app. f_equal; [f_equal; unfold SKL; rewrite map_map; reflexivity|].
+        unfold R0. apply map_ext_in. intros [k a] Hk. simpl. f_equal. apply filter_In in Hk. destruct Hk as [Hk _].
+        unfold fcols. rewrite map_app, mem_app, map_map. simpl.
+        change (map (fun x : string * (A * A) => fst x) SK) with names.
+        assert (M : mem k names = false). { apply mem_false. intros H. apply (NSrg k H). unfold fcols. apply in_map_iff. exists (k, a). split; [reflexivity|exact Hk]. }
+        rewrite M, orb_false_r. reflexivity. }
+      rewrite Eo.
+      assert (NDo : nodupb (fcols ((L0 ++ SKL) ++ R0)) = true).
+      { apply nodupb_NoDup. unfold fcols. rewrite !map_app. fold (fcols L0). fold (fcols SKL). fold (fcols R0). rewrite <- app_assoc, CS.
+        apply NoDup_insert_list; [unfold fcols in ND; rewrite map_app in ND; exact ND|exact NS|].
+        intros n Hn. rewrite in_app_iff, CL. intros [H|H]; [exact (NSlf n Hn H)|exact (NSR0 n Hn H)]. }
+      rewrite NDo. simpl. f_equal.
+      rewrite fold_fdel_app_r by exact NSR0. f_equal. rewrite <- CS. apply fold_fdel_appended.
+      - rewrite CS. exact NS.
+      - intros n Hn. rewrite CS in Hn. rewrite CL. exact (NSlf n Hn). }
+    assert (Fabs : forall (F : frame A) n a, ~ In n (fcols F) -> fset F n a = F ++ [(n, a)]) by (intros F n a H; apply fset_absent, H).
+    assert (Mlf : ~ In (n_merge sn) (fcols lf)) by (intros H; apply Gm, Ulf, H).
+    assert (Mrg : ~ In (n_merge sn) (fcols rg)) by (intros H; apply Gm, Urg, H).
+    assert (Klf : ~ In (n_nullkey sn) (fcols lf)) by (intros H; apply Gnk, Ulf, H).
+    assert (Krg : ~ In (n_nullkey sn) (fcols rg)) by (intros H; apply Gnk, Urg, H).
+    assert (ReadOwn : forall (F T : frame A) cs, (forall c, In c cs -> ~ In c (fcols T)) -> freads (F ++ T) cs = freads F cs).
+    { intros F T cs H. apply freads_ext. intros c Hc. apply fget_app_absent, H, Hc. }
+    assert (ReadNew : forall (F T : frame A), NoDup (fcols T) -> (forall c, In c (fcols T) -> ~ In c (fcols F)) -> freads (F ++ T) (fcols T) = Some (map snd T)).
+    { intros F T N H. rewrite <- (freads_own T N). apply freads_ext. intros c Hc. apply fget_app_r, H, Hc. }
+    unfold pexec_join, plain_join. fold one. fold lfc.
+    destruct on as [|o1 os].
+    - (* no key *)
+      cbn iota beta. rewrite (Fabs lf _ one Mlf), (Fabs rg _ one Mrg).
+      assert (K1 : forall F : frame A, ~ In (n_merge sn) (fcols F) -> freads (F ++ [(n_merge sn, one)]) [n_merge sn] = Some [one]).
+      { intros F NF. apply (ReadNew F [(n_merge sn, one)]); [repeat constructor; simpl; tauto|]. intros c [<-|[]]. exact NF. }
+      rewrite (K1 lf Mlf), (K1 rg Mrg). cbn [obind].
+      destruct nullkeys; cbn iota beta.
+      + (* ... and null markers: two scratch keys *)
+        assert (N2 : forall F : frame A, ~ In (n_merge sn) (fcols F) -> ~ In (n_nullkey sn) (fcols F) -> ~ In (n_nullkey sn) (fcols (F ++ [(n_merge sn, one)]))).
+        { intros F H1 H2. unfold fcols. rewrite map_app, in_app_iff. simpl. intros [H|[H|[]]]; [exact (H2 H)|exact (Gmnk H)]. }
+        rewrite (Fabs _ _ (p_nullmark_left P [one]) (N2 lf Mlf Klf)), (Fabs _ _ (p_nullmark_right P [one]) (N2 rg Mrg Krg)).
+        rewrite <- !app_assoc. cbn [app].
+        set (SK := [(n_merge sn, (one, one)); (n_nullkey sn, (p_nullmark_left P [one], p_nullmark_right P [one]))]).
+        assert (NS : NoDup (map fst SK)) by (simpl; constructor; [simpl; intros [H|[]]; exact (Gmnk (eq_sym H))|repeat constructor; simpl; tauto]).
+        assert (HS : forall n, In n (map fst SK) -> ~ In n u /\ forall c, In c (filter (fun c => mem c (fcols rg)) lfc) -> nr c <> n).
+        { intros n [<-|[<-|[]]]; split; auto. }
+        assert (Ra : freads (lf ++ [(n_merge sn, one); (n_nullkey sn, p_nullmark_left P [one])]) [n_merge sn; n_nullkey sn] = Some [one; p_nullmark_left P [one]]).
+        { apply (ReadNew lf [(n_merge sn, one); (n_nullkey sn, p_nullmark_left P [one])]); [exact NS|]. intros c [<-|[<-|[]]]; assumption. }
+        assert (Rb : freads (rg ++ [(n_merge sn, one); (n_nullkey sn, p_nullmark_right P [one])]) [n_merge sn; n_nullkey sn] = Some [one; p_nullmark_right P [one]]).
+        { apply (ReadNew rg [(n_merge sn, one); (n_nullkey sn, p_nullmark_right P [one])]); [exact NS|]. intros c [<-|[<-|[]]]; assumption. }
+        rewrite Ra, Rb. cbn [obind].
+        pose proof (Scratch SK [one; p_nullmark_left P [one]] [one; p_nullmark_right P [one]] NS HS) as SC. cbn [SK map fst snd app] in SC.
+        rewrite SC. exact (Core [one; p_nullmark_left P [one]] [one; p_nullmark_right P [one]] (fun c (H : In c []) => match H with end)).
+      + set (SK := [(n_merge sn, (one, one))]).
+        assert (NS : NoDup (map fst SK)) by (simpl; repeat constructor; simpl; tauto).
+        assert (HS : forall n, In n (map fst SK) -> ~ In n u /\ forall c, In c (filter (fun c => mem c (fcols rg)) lfc) -> nr c <> n).
+        { intros n [<-|[]]; split; auto. }
+        rewrite (K1 lf Mlf), (K1 rg Mrg). cbn [obind].
+        pose proof (Scratch SK [one] [one] NS HS) as SC. cbn [SK map fst snd app] in SC.
+        rewrite SC. exact (Core [one] [one] (fun c (H : In c []) => match H with end)).
+    - (* keys *)
+      cbn iota beta.
+      destruct (freads lf (o1 :: os)) as [ka1|] eqn:Ka; cbn [obind]; [|reflexivity].
+      destruct (freads rg (o1 :: os)) as [kb1|] eqn:Kb; cbn [obind]; [|reflexivity].
+      assert (Hon : forall c, In c (o1 :: os) -> In c lfc) by (apply (freads_In lf (o1 :: os) ka1 Ka)).
+      assert (Uon : forall c, In c (o1 :: os) -> In c u) by (intros c Hc; apply Ulf, Hon, Hc).
+      destruct nullkeys; cbn iota beta.
+      + rewrite (Fabs lf _ (p_nullmark_left P ka1) Klf), (Fabs rg _ (p_nullmark_right P kb1) Krg).
+        set (SK := [(n_nullkey sn, (p_nullmark_left P ka1, p_nullmark_right P kb1))]).
+        assert (NS : NoDup (map fst SK)) by (simpl; repeat constructor; simpl; tauto).
+        assert (HS : forall n, In n (map fst SK) -> ~ In n u /\ forall c, In c (filter (fun c => mem c (fcols rg)) lfc) -> nr c <> n).
+        { intros n [<-|[]]; split; auto. }
+        assert (Ra : freads (lf ++ [(n_nullkey sn, p_nullmark_left P ka1)]) ((o1 :: os) ++ [n_nullkey sn]) = Some (ka1 ++ [p_nullmark_left P ka1])).
+        { rewrite freads_app, ReadOwn, Ka by (intros c Hc [<-|[]]; exact (Gnk (Uon _ Hc))).
+          assert (RN : freads (lf ++ [(n_nullkey sn, p_nullmark_left P ka1)]) [n_nullkey sn] = Some [p_nullmark_left P ka1]).
+          { apply (ReadNew lf [(n_nullkey sn, p_nullmark_left P ka1)]); [repeat constructor; simpl; tauto|intros c [<-|[]]; exact Klf]. }
+          rewrite RN. reflexivity. }
+        assert (Rb : freads (rg ++ [(n_nullkey sn, p_nullmark_right P kb1)]) ((o1 :: os) ++ [n_nullkey sn]) = Some (kb1 ++ [p_nullmark_right P kb1])).
+        { rewrite freads_app, ReadOwn, Kb by (intros c Hc [<-|[]]; exact (Gnk (Uon _ Hc))).
+          assert (RN : freads (rg ++ [(n_nullkey sn, p_nullmark_right P kb1)]) [n_nullkey sn] = Some [p_nullmark_right P kb1]).
+          { apply (ReadNew rg [(n_nullkey sn, p_nullmark_right P kb1)]); [repeat constructor; simpl; tauto|intros c [<-|[]]; exact Krg]. }
+          rewrite RN. reflexivity. }
+        rewrite Ra, Rb. cbn [obind].
+        pose proof (Scratch SK (ka1 ++ [p_nullmark_left P ka1]) (kb1 ++ [p_nullmark_right P kb1]) NS HS) as SC. cbn [SK map fst snd] in SC.
+        rewrite SC. exact (Core _ _ Hon).
+      + rewrite Ka, Kb. cbn [obind].
+        pose proof (Scratch [] ka1 kb1 (NoDup_nil _) (fun n (H : In n []) => match H with end)) as SC. cbn [map fst snd fold_left] in SC.
+        rewrite !app_nil_r in SC. rewrite SC. exact (Core _ _ Hon).
   Qed.
 End Join.
